@@ -172,6 +172,17 @@ def run(chk, tier):
         for l_ in user:
             by_ty.setdefault(f['locals'][l_]['ty'], []).append(l_)
         cur = [l_ for ty_, ls in by_ty.items() if re.fullmatch(r"&(?:'\w+ )?\[u8\]", ty_) for l_ in ls]
+        if len(cur) > 1:
+            # the cursor is the slice that lives across iterations (initialised before the loop); a slice bound inside one iteration
+            # (`[hi, lo, tail @ ..] = rest`) is a temporary of that iteration
+            outside = set()
+            for bi_, b__ in enumerate(f['blocks']):
+                if bi_ in body_blocks or b__.get('cleanup'):
+                    continue
+                for st__ in b__['stmts']:
+                    if 'lhs' in st__ and not st__['lhs']['p']:
+                        outside.add(st__['lhs']['l'])
+            cur = [l_ for l_ in cur if l_ in outside]
         acc = by_ty.get('u32', [])
         idx = by_ty.get('usize', [])
         iterform = any(f['blocks'][bi_]['term']['k'] == 'call' and re.search(r'Enumerate<.*ChunksExact<.*::next$', f['blocks'][bi_]['term'].get('callee_args') or '')
@@ -375,6 +386,13 @@ def _r3_while(chk, prog, f, head, names):
                 """print a value with every sub-slice of data flattened"""
                 if isinstance(v, tuple) and v[0] == 'term' and v[1] == 'subslice':
                     return show_slice(v)
+                if isinstance(v, tuple) and v[0] == 'arr' and len(v[1]) >= 2 and all(
+                        isinstance(e_, tuple) and e_[:2] == ('term', 'index') and is_c(e_[2][1]) and e_[2][1][1] == k_ and key(e_[2][0]) == key(v[1][0][2][0])
+                        for k_, e_ in enumerate(v[1])):
+                    # [s[0], s[1], ..] element by element is the array of the first octets of s (slice pattern / explicit indexing)
+                    fl = flat(v[1][0][2][0])
+                    if fl:
+                        return 'array_of(data[%s..%s])' % (lstr(fl[0]), lstr(fl[0].add(P3.lin(C(len(v[1]))))))
                 if isinstance(v, tuple) and v[0] == 'term':
                     return '%s(%s)' % (v[1], ', '.join(norm_val(x) for x in v[2]))
                 return vshow(v)
